@@ -56,6 +56,19 @@ def gen_candles(rng, n: int, mode: str, names=("a", "b")) -> List[Dict]:
             v = gen_reading(rng, mode)
             if v != "MISSING":
                 inds[nm] = v
+        # a dict-valued reading for the dotted name "d.x": the part present, None, or absent from the dict
+        q = rng.random()
+        if mode == "clean":
+            inds["d"] = {"x": gen_reading(rng, mode), "y": 1.0}
+        elif q < 0.12:
+            pass
+        elif q < 0.22:
+            inds["d"] = None
+        elif q < 0.42:
+            inds["d"] = {"y": 2.0}
+        else:
+            v = gen_reading(rng, "plain")
+            inds["d"] = {"x": None if v == "MISSING" else v, "y": 1.0}
         r["inds"] = inds
     return rows
 
@@ -72,14 +85,14 @@ def mk(rows: List[Dict]):
 
 def gen_spec(rng, fname: Optional[str] = None) -> Dict:
     f = fname or rng.choice(ALL)
-    src = rng.choice(["a", "b", "a", "close", "high", "low"])
+    src = rng.choice(["a", "b", "a", "close", "high", "low", "d.x"])
     spec: Dict[str, Any] = {"f": f}
     if f in MOVEMENT2:
-        spec.update(a=rng.choice(["a", "close"]), b=rng.choice(["b", "open", "a"]))
+        spec.update(a=rng.choice(["a", "close", "d.x"]), b=rng.choice(["b", "open", "a"]))
     elif f in MOVEMENT_L:
         spec.update(name=src, length=rng.choice([0, 1, 1, 2, 3, 4, 5, 7, 30]))
     elif f in CROSS:
-        spec.update(a=rng.choice(["a", "close"]), b=rng.choice(["b", "open"]), length=rng.choice([1, 1, 2, 3, 6, 30]))
+        spec.update(a=rng.choice(["a", "close", "d.x"]), b=rng.choice(["b", "open"]), length=rng.choice([1, 1, 2, 3, 6, 30]))
     elif f in PATTERNS:
         spec.update(lookback=rng.choice([None, None, 1, 2, 5, 20]))
     return spec
